@@ -113,6 +113,11 @@ type SynthParams struct {
 	FaultBlock  int    // index of the block that gets the fault (clamped)
 	TailGarbage int    // bytes of filler appended after the fault / stream
 	Dict        []byte
+	// AimOut > 0: the first block produces exactly AimOut+AimOff bytes and is
+	// followed by a tiny literal-only dynamic block, so that block ends fall
+	// right around a chosen output offset (the decoder's history wrap points).
+	AimOut int
+	AimOff int
 }
 
 type Synth struct {
@@ -405,13 +410,27 @@ func Synthesize(rng Rand, p SynthParams) *Synth {
 		}
 		// tokens for this block
 		target := perBlock/2 + rng.Intn(perBlock+1)
+		exact := false
+		if p.AimOut > 0 && fault == FaultNone {
+			if bi == 0 && nblocks >= 3 {
+				target, exact = p.AimOut+p.AimOff, true
+				if target < 1 {
+					target = 1
+				}
+				if typ == 0 {
+					typ = 1 + rng.Intn(2)
+				}
+			} else if bi == 1 && nblocks >= 3 {
+				target, exact, typ = 1+rng.Intn(4), true, 2
+			}
+		}
 		if typ == 0 && target > 65535 {
 			target = 65535
 		}
 		var toks []Tok
 		produced := 0
 		for produced < target {
-			if typ != 0 && len(out) > 0 && rng.Intn(100) < p.MatchPct {
+			if typ != 0 && len(out) > 0 && rng.Intn(100) < p.MatchPct && !(exact && target-produced < 260) {
 				maxd := len(out)
 				if maxd > 32768 {
 					maxd = 32768
